@@ -14,7 +14,7 @@ for d in sorted(glob.glob(f"{root}/C??-?") + glob.glob(f"{root}/C??r?-?")):
     meta = {
         "seed": s,
         "breaks_property": s[:3],
-        "round": 4 if "r4" in s else (2 if "r2" in s else 1),
+        "round": 5 if "r5" in s else (4 if "r4" in s else (2 if "r2" in s else 1)),
         "first_run_before_any_strengthening": needs.get(s, {}).get("first_run"),
         "change": needs.get(s, {}).get("change"),
         "needs_in_order_to_manifest": needs.get(s, {}).get("needs"),
